@@ -471,12 +471,20 @@ type layout struct {
 	NoLF    bool // never emit LF/CR (NDJSON lines)
 }
 
+// edgeRun: white space before / after the document: mostly 0..3 bytes, now and then a run longer than one or two blocks
+func edgeRun(t *rapid.T, label string) int {
+	if rapid.IntRange(0, 9).Draw(t, label+"long") == 0 {
+		return rapid.IntRange(60, 200).Draw(t, label+"run")
+	}
+	return rapid.IntRange(0, 3).Draw(t, label)
+}
+
 func genLayout(t *rapid.T, nolf bool) layout {
 	return layout{
 		Mode:    rapid.IntRange(0, 3).Draw(t, "wsmode"),
 		Seed:    rapid.Uint64().Draw(t, "wsseed"),
-		Lead:    rapid.IntRange(0, 3).Draw(t, "lead"),
-		Trail:   rapid.IntRange(0, 3).Draw(t, "trail"),
+		Lead:    edgeRun(t, "lead"),
+		Trail:   edgeRun(t, "trail"),
 		OpenPad: rapid.IntRange(0, 70).Draw(t, "openpad"),
 		NoLF:    nolf,
 	}
